@@ -361,6 +361,62 @@ fn c18(case: u64) {
     }
 }
 
+// ---------------------------------------------------------------------------------------------
+// C10 / C13: the known-peer table that application threads share with the connection manager
+// ---------------------------------------------------------------------------------------------
+
+/// Readers (what the admission rule and the background dialer do: `get`, `get_all`) next to
+/// application threads that insert and remove *other* entries. An entry nobody touches is found,
+/// with the affinity it has always had, at every instant: a lookup that comes back empty because
+/// somebody is writing elsewhere in the table would turn a Never peer into an unknown one.
+fn c10(case: u64) {
+    use anemo::types::{PeerAffinity, PeerInfo};
+    let writers = 1 + (case % 2) as u8;
+    let kp = anemo::KnownPeers::new();
+    kp.insert(PeerInfo { peer_id: peer(1), affinity: PeerAffinity::Never, address: vec![] });
+    kp.insert(PeerInfo { peer_id: peer(2), affinity: PeerAffinity::High, address: vec![] });
+    let mut hs = Vec::new();
+    for t in 0..writers {
+        let kp = kp.clone();
+        hs.push(std::thread::spawn(move || {
+            for k in 0..12u8 {
+                let id = peer(100 + 20 * t + k % 5);
+                if k % 3 == 2 {
+                    kp.remove(&id);
+                } else {
+                    kp.insert(PeerInfo { peer_id: id, affinity: PeerAffinity::Allowed, address: vec![] });
+                }
+            }
+        }));
+    }
+    for r in 0..2u8 {
+        let kp = kp.clone();
+        hs.push(std::thread::spawn(move || {
+            for k in 0..10u8 {
+                let (id, want) = if (k + r) % 2 == 0 { (peer(1), "Never") } else { (peer(2), "High") };
+                let got = match kp.get(&id).map(|i| i.affinity) {
+                    Some(PeerAffinity::Never) => "Never",
+                    Some(PeerAffinity::High) => "High",
+                    Some(_) => "other",
+                    None => "unknown",
+                };
+                if got != want {
+                    violation("known-peer-lookup-inconsistent", format!("lookup {k} of reader {r}: the entry of peer {} (affinity {want} since before any thread started, never touched) was read as {got} while other threads inserted and removed other entries", id.0[0]));
+                }
+                if k % 4 == 3 {
+                    let all = kp.get_all();
+                    if !all.iter().any(|i| i.peer_id == peer(1)) || !all.iter().any(|i| i.peer_id == peer(2)) {
+                        violation("known-peer-lookup-inconsistent", format!("get_all() of reader {r} misses an entry nobody touches ({} entries)", all.len()));
+                    }
+                }
+            }
+        }));
+    }
+    for h in hs {
+        h.join().unwrap();
+    }
+}
+
 fn main() {
     let args: Vec<String> = std::env::args().collect();
     let case: u64 = args.get(2).and_then(|s| s.parse().ok()).unwrap_or(0);
@@ -368,8 +424,9 @@ fn main() {
         Some("C18") => c18(case),
         Some("C19") => c19(case),
         Some("C20") => c20(case),
+        Some("C10") => c10(case),
         _ => {
-            eprintln!("usage: layers <C18|C19|C20> <case>");
+            eprintln!("usage: layers <C10|C18|C19|C20> <case>");
             std::process::exit(2);
         }
     }
